@@ -5,9 +5,10 @@ package c02
 import (
 	"fmt"
 	"mime"
-	"mime/multipart"
 	"io"
+	"mime/multipart"
 	"net/http"
+	"net/url"
 	"reflect"
 	"sort"
 	"strings"
@@ -50,8 +51,13 @@ func canonOpt(v *codec.V) string {
 // canonInvocation renders the arguments of a call; batch keys are a set (the ids travel in
 // ascending order of their encodings, map iteration has no order), everything else is exact.
 func canonInvocation(e *codec.Env, c *Call) string {
+	return c.Res.Pkg + "." + FuncName(c.M) + " " + canonArgs(c)
+}
+
+// canonArgs: the arguments alone (the format of the model's answer)
+func canonArgs(c *Call) string {
 	var b strings.Builder
-	fmt.Fprintf(&b, "%s.%s keys=%s params=%s", c.Res.Pkg, FuncName(c.M), vs(c.Keys, true), canonOpt(c.Params))
+	fmt.Fprintf(&b, "keys=%s params=%s", vs(c.Keys, true), canonOpt(c.Params))
 	switch c.Kind() {
 	case "create", "update":
 		b.WriteString(" entity=" + canonOpt(c.Entity))
@@ -107,6 +113,10 @@ func canonReply(e *codec.Env, c *Call, r *Reply, single bool) string {
 	}
 	ent := codec.R(c.Res.Schema)
 	var b strings.Builder
+	switch kind := c.Kind(); {
+	case kind == "update" || kind == "delete" || (kind == "partial_update" && !c.M.ReturnEntity) || (kind == "action" && c.M.Return == nil):
+		return "unit"
+	}
 	switch kind := c.Kind(); kind {
 	case "get", "partial_update":
 		b.WriteString("entity=" + exp(ent, r.Entity))
@@ -125,18 +135,16 @@ func canonReply(e *codec.Env, c *Call, r *Reply, single bool) string {
 		if c.M.Return != nil {
 			et = *c.M.Return
 		}
-		b.WriteString("elements=[")
+		var els []string
 		for _, el := range r.Elements {
-			b.WriteString(exp(et, el))
+			els = append(els, exp(et, el))
 		}
-		b.WriteString("] paging=" + exp(codec.R(tCollMeta), r.Paging))
+		b.WriteString("elements=[" + strings.Join(els, " ") + "] paging=" + exp(codec.R(tCollMeta), r.Paging))
 		if c.M.Metadata != nil {
 			b.WriteString(" meta=" + exp(*c.M.Metadata, r.Metadata))
 		}
 	case "action":
-		if c.M.Return != nil {
-			b.WriteString("action=" + exp(*c.M.Return, r.Action))
-		}
+		b.WriteString("action=" + exp(*c.M.Return, r.Action))
 	default:
 		var es []string
 		for _, be := range r.Batch {
@@ -168,6 +176,9 @@ type execution struct {
 	calls    []recorded
 	inv      string // canonical invocation seen by the fake, or a description of what went wrong
 	invOK    bool
+	args     string // the arguments alone
+	other    bool   // another method than the call's was invoked
+	errText  string // the client error's own text (diagnostics only, never compared)
 	out      clientOutcome
 	ret      string // canonical client result
 	tunneled bool
@@ -189,8 +200,11 @@ func clientErrClass(err error) string {
 		return fmt.Sprintf("err unexpected-status %d", e.Response.StatusCode)
 	case *restli.CreateResponseHasNoEntityHeaderError, restli.CreateResponseHasNoEntityHeaderError:
 		return "err no-id-header"
+	case *url.Error:
+		return "err transport"
 	}
-	return "err other " + strings.SplitN(err.Error(), "\n", 2)[0]
+	// everything else is a response that did not decode (missing fields, unknown keys, syntax)
+	return "err decode"
 }
 
 func (x *runner) execute(rc runCfg, c *Call) *execution {
@@ -215,12 +229,13 @@ func (x *runner) execute(rc runCfg, c *Call) *execution {
 		ex.inv = "several resource methods invoked: " + strings.Join(names, ",")
 	case ex.calls[0].res != c.Res.Pkg || ex.calls[0].fn != FuncName(c.M):
 		ex.inv = "another method invoked: " + ex.calls[0].res + "." + ex.calls[0].fn
+		ex.other = true
 	default:
 		got, err := w.readInvocation(ex.calls[0], c)
 		if err != nil {
 			ex.inv = "unreadable invocation: " + err.Error()
 		} else {
-			ex.inv, ex.invOK = canonInvocation(x.env, got), true
+			ex.inv, ex.invOK, ex.args = canonInvocation(x.env, got), true, canonArgs(got)
 		}
 	}
 	switch {
@@ -230,6 +245,7 @@ func (x *runner) execute(rc runCfg, c *Call) *execution {
 		ex.ret = "panic " + ex.out.panicked
 	case ex.out.err != nil:
 		ex.ret = clientErrClass(ex.out.err)
+		ex.errText = strings.SplitN(ex.out.err.Error(), "\n", 2)[0]
 	default:
 		ex.ret = "ok " + canonReply(x.env, c, ex.out.reply, true)
 	}
@@ -327,6 +343,9 @@ func (x *runner) judge(c *Call, op string, execs []*execution) {
 	for _, ex := range execs {
 		x.r.OracleCases++
 		impl := fmt.Sprintf("[%s] wire=%s %s?%s status=%d | saw: %s | returned: %s", ex.cfg, ex.cap.method, ex.cap.escPath, ex.cap.rawQuery, ex.cap.status, ex.inv, ex.ret)
+		if ex.errText != "" {
+			impl += " (" + ex.errText + ")"
+		}
 		opc := op + " ;cfg=" + ex.cfg.String()
 		cls := cls
 		if ex.cfg.world == "mux" && ex.cap.n > 1 && cls == "" {
@@ -447,9 +466,21 @@ func (x *runner) implAnswer(c *Call, ex *execution) string {
 	}
 	req := fmt.Sprintf("req %s %s %s %s %s %s eff %s", cp.method, hx.Hex([]byte(cp.escPath)), hx.Hex([]byte(cp.rawQuery)),
 		cp.header.Get("X-RestLi-Method"), ov, mt, eff)
-	inv := "inv " + ex.inv
+	inv := "inv " + ex.args
+	if ex.other {
+		return req + " | inv other"
+	}
 	if !ex.invOK {
-		inv = "inv none"
+		// nothing was invoked: the response is an error page whose text is not compared
+		er := "0"
+		if cp.respHdr.Get("X-RestLi-Error-Response") == "true" {
+			er = "1"
+		}
+		ret := ex.ret
+		if f := strings.Fields(ret); len(f) == 4 && f[0] == "err" && f[1] == "restli" {
+			ret = "err restli " + f[2] + " -"
+		}
+		return req + " | inv none | " + fmt.Sprintf("resp %d - %s -", cp.status, er) + " | ret " + ret
 	}
 	id := "-"
 	if v, ok := cp.respHdr[http.CanonicalHeaderKey("X-RestLi-Id")]; ok && len(v) > 0 {
@@ -460,6 +491,10 @@ func (x *runner) implAnswer(c *Call, ex *execution) string {
 		er = "1"
 	}
 	resp := fmt.Sprintf("resp %d %s %s %s", cp.status, id, er, hexOrDash(cp.respBody, len(cp.respBody) > 0))
+	if cp.tripErr != "" {
+		// net/http could not read the response (a header field value it rejects)
+		resp = "resp unreadable"
+	}
 	return req + " | " + inv + " | " + resp + " | ret " + ex.ret
 }
 
@@ -468,7 +503,37 @@ func (x *runner) opLine(c *Call, rc runCfg) string {
 	if rc.world == "prefixed" {
 		pfx = hx.Hex([]byte(prefixPath))
 	}
-	return fmt.Sprintf("e2e %s %s %s %s %s (cfg %d %s)", x.cfg.Module, x.env.Closure(c.envRoots()...), c.specSexp(), c.callSexp(), c.Reply.sexp(), rc.threshold, pfx)
+	return fmt.Sprintf("e2e %s %s %s %s %s %s (cfg %d %s)", x.cfg.Module, x.env.Closure(c.envRoots()...), regsSexp(), c.specSexp(), c.callSexp(), c.Reply.sexp(), rc.threshold, pfx)
+}
+
+var regsOnce string
+
+// regsSexp lists every registration of the server (Driver/Routing.lean's format): the routing model
+// walks the same tree as the real server
+func regsSexp() string {
+	if regsOnce != "" {
+		return regsOnce
+	}
+	parts := []string{"regs"}
+	for _, r := range codec.C02Resources() {
+		var segs []string
+		for _, s := range r.Segs {
+			segs = append(segs, "("+s.Name+" "+b01(s.Key != nil)+")")
+		}
+		for i := range r.Methods {
+			m := &r.Methods[i]
+			what := "(m " + m.Name + ")"
+			switch m.Kind {
+			case "finder":
+				what = "(f " + m.Name + ")"
+			case "action":
+				what = "(a " + m.Name + " " + b01(m.OnEntity) + ")"
+			}
+			parts = append(parts, "(r ("+strings.Join(segs, " ")+") "+what+")")
+		}
+	}
+	regsOnce = "(" + strings.Join(parts, " ") + ")"
+	return regsOnce
 }
 
 func keyKind(r *codec.C02Resource, m *codec.C02Method) string {
